@@ -1,5 +1,14 @@
 package kafka
 
+import (
+	"context"
+	"errors"
+	"net"
+	"time"
+
+	plistoffsets "github.com/segmentio/kafka-go/protocol/listoffsets"
+)
+
 // C19: offset and metadata queries report exactly the brokers' state.
 
 // H1: Seek in every whence mode, against a broker whose partition holds offsets [first, last].
@@ -127,4 +136,92 @@ func vhParseListOffsetsRequest(b []byte) (r vhListOffsetsReq) {
 
 func vhBE32(b []byte) int32 {
 	return int32(uint32(b[0])<<24 | uint32(b[1])<<16 | uint32(b[2])<<8 | uint32(b[3]))
+}
+
+// H4: Client.ListOffsets mapping. The fake transport is the cluster: per (topic, partition) it holds symbolic
+// first/last offsets, one timestamped offset, and an error code on one chosen partition.
+type vhOffsetsCluster struct {
+	first, last, timed map[string][]int64
+	errTopic           string
+	errPartition       int
+	errCode            int16
+	timeMs             int64
+}
+
+func (c *vhOffsetsCluster) RoundTrip(ctx context.Context, addr net.Addr, req Request) (Response, error) {
+	r := req.(*plistoffsets.Request)
+	res := &plistoffsets.Response{}
+	for _, t := range r.Topics {
+		rt := plistoffsets.ResponseTopic{Topic: t.Topic}
+		for _, p := range t.Partitions {
+			rp := plistoffsets.ResponsePartition{Partition: p.Partition, Timestamp: p.Timestamp}
+			switch p.Timestamp {
+			case FirstOffset:
+				rp.Offset = c.first[t.Topic][p.Partition]
+			case LastOffset:
+				rp.Offset = c.last[t.Topic][p.Partition]
+			default:
+				rp.Offset = c.timed[t.Topic][p.Partition]
+			}
+			if t.Topic == c.errTopic && int(p.Partition) == c.errPartition {
+				rp.ErrorCode = c.errCode
+			}
+			rt.Partitions = append(rt.Partitions, rp)
+		}
+		res.Topics = append(res.Topics, rt)
+	}
+	return res, nil
+}
+
+func VH_C19_ClientListOffsets(T, P int) {
+	vhConcreteClock(true)
+	cl := &vhOffsetsCluster{first: map[string][]int64{}, last: map[string][]int64{}, timed: map[string][]int64{}, timeMs: 5000}
+	req := &ListOffsetsRequest{Topics: map[string][]OffsetRequest{}}
+	for t := 0; t < T; t++ {
+		name := vhTopicName(t)
+		for p := 0; p < P; p++ {
+			cl.first[name] = append(cl.first[name], vhInt64("first"))
+			cl.last[name] = append(cl.last[name], vhInt64("last"))
+			cl.timed[name] = append(cl.timed[name], vhInt64("timed"))
+			req.Topics[name] = append(req.Topics[name], FirstOffsetOf(p), LastOffsetOf(p))
+		}
+	}
+	// one partition is additionally asked for a time-based offset, one partition carries an error
+	tt, tp := vhChoose("timed_topic", T), vhChoose("timed_partition", P)
+	req.Topics[vhTopicName(tt)] = append(req.Topics[vhTopicName(tt)], TimeOffsetOf(tp, time.Unix(5, 0)))
+	cl.errTopic, cl.errPartition, cl.errCode = vhTopicName(vhChoose("err_topic", T)), vhChoose("err_partition", P), vhInt16("err_code")
+	vhAssume(cl.errCode != 0)
+	c := &Client{Addr: TCP("vh:9092"), Transport: cl}
+	res, err := c.ListOffsets(context.Background(), req)
+	vhAssert(err == nil, "listoffsets-roundtrip-ok")
+	for t := 0; t < T; t++ {
+		name := vhTopicName(t)
+		vhAssert(len(res.Topics[name]) == P, "one-entry-per-requested-partition")
+		for p := 0; p < P; p++ {
+			var po *PartitionOffsets
+			for i := range res.Topics[name] {
+				if res.Topics[name][i].Partition == p {
+					po = &res.Topics[name][i]
+				}
+			}
+			vhAssert(po != nil, "partition-present")
+			if po == nil {
+				continue
+			}
+			vhAssert(vhAll(po.FirstOffset == cl.first[name][p], po.LastOffset == cl.last[name][p]), "first-and-last-offsets-are-the-brokers")
+			if t == tt && p == tp {
+				vhAssert(len(po.Offsets) == 1, "timed-offset-reported-on-its-partition")
+				ts, ok := po.Offsets[cl.timed[name][p]]
+				vhAssert(ok && ts.Equal(time.Unix(5, 0)), "timed-offset-value")
+			} else {
+				vhAssert(len(po.Offsets) == 0, "no-timed-offset-on-other-partitions")
+			}
+			if name == cl.errTopic && p == cl.errPartition {
+				vhAssert(po.Error != nil && errors.Is(po.Error, Error(cl.errCode)), "error-reported-on-its-partition")
+			} else {
+				vhAssert(po.Error == nil, "error-does-not-leak-to-other-partitions")
+			}
+		}
+	}
+	vhReach("c19-client-listoffsets")
 }
